@@ -55,6 +55,16 @@ inductive Expr
   | avgTable (tbl : List (Int × Rat)) (dflt : Rat) (e : Expr)
   /-- `self.callback(e)` -/
   | callback (e : Expr)
+  /-- `[*e]` (a fresh list of the elements of an iterable) -/
+  | copyList (e : Expr)
+  /-- `len(e)` -/
+  | len (e : Expr)
+  /-- `a not in b` -/
+  | notIn (a b : Expr)
+  /-- `e[k]` with a computed key -/
+  | index (e k : Expr)
+  /-- a call of the function being defined (recursion): `f(a, b)` -/
+  | recCall (a b : Expr)
 deriving Repr
 
 inductive Target
@@ -71,6 +81,8 @@ inductive Stmt
   | assign (t : Target) (e : Expr)
   | ite (c : Expr) (a b : Stmt)
   | ret (e : Expr)
+  /-- `x = l.pop(0)` for a local list `l` -/
+  | popFront (x l : String)
 deriving Repr
 
 /-- everything a `calculate` body can see -/
@@ -86,6 +98,8 @@ structure Env where
   locals : List (String × PyVal) := []
   /-- `self.callback(name)` -/
   cb : Name → Val := fun _ => 0
+  /-- what a recursive call of the function being interpreted answers (bounded unfolding: see `runFunction`) -/
+  recCall : PyVal → PyVal → Except Err PyVal := fun _ _ => .error .typeError
 
 /-- `a is b`, for the two singletons that occur: the sentinel and `None` -/
 def pyIs : PyVal → PyVal → Bool
@@ -97,6 +111,64 @@ def pyIs : PyVal → PyVal → Bool
 def toKeys : PyVal → Option (List String)
   | .list xs => xs.foldr (fun x acc => match x, acc with | .str s, some l => some (s :: l) | _, _ => none) (some [])
   | _ => none
+
+/-- a value used as dictionary key (`None`, floats, tuples … are opaque; lists and dicts are unhashable) -/
+def toKey : PyVal → Option PyKey
+  | .str s => some (.str s)
+  | .int i => some (.int i)
+  | .bool b => some (.int (if b then 1 else 0))
+  | .none => some (.other "None")
+  | .other t => some (.other t)
+  | _ => none
+
+/-- `k in c` -/
+def pyIn (k c : PyVal) : Except Err Bool :=
+  match c with
+  | .dict kvs =>
+    match toKey k with
+    | some key => .ok (kvs.lookup key).isSome
+    | none => .error .typeError                       -- unhashable
+  | .list xs => .ok (xs.any (fun x => PyVal.pyEq x k))
+  | .str s =>
+    match k with
+    | .str t => .ok (PyVal.isInfix t.toList s.toList)
+    | _ => .error .typeError                          -- 'in <string>' requires string as left operand
+  | _ => .error .typeError                            -- argument of type … is not iterable
+
+/-- `c[k]` -/
+def pyIndex (c k : PyVal) : Except Err PyVal :=
+  match c with
+  | .dict kvs =>
+    match toKey k with
+    | some key =>
+      match kvs.lookup key with
+      | some v => .ok v
+      | none => .error .keyError
+    | none => .error .typeError
+  | .list xs =>
+    match k with
+    | .int i => if 0 ≤ i ∧ i.toNat < xs.length then .ok (xs.getD i.toNat .none) else
+                if i < 0 ∧ (-i).toNat ≤ xs.length then .ok (xs.getD (xs.length - (-i).toNat) .none) else .error .indexError
+    | _ => .error .typeError                          -- list indices must be integers
+  | .str _ =>
+    match k with
+    | .int _ => .error .indexError                    -- (character indexing is not needed by any translated function)
+    | _ => .error .typeError                          -- string indices must be integers
+  | _ => .error .typeError                            -- not subscriptable
+
+/-- `[*e]` -/
+def pyIterList : PyVal → Except Err (List PyVal)
+  | .list xs => .ok xs
+  | .str s => .ok (s.toList.map (fun c => .str (String.singleton c)))
+  | .dict kvs => .ok (kvs.map (fun p => PyVal.keyVal p.1))
+  | _ => .error .typeError
+
+/-- `len(e)` -/
+def pyLen : PyVal → Except Err Nat
+  | .list xs => .ok xs.length
+  | .str s => .ok s.length
+  | .dict kvs => .ok kvs.length
+  | _ => .error .typeError
 
 def eval (env : Env) : Expr → Except Err PyVal
   | .const v => .ok v
@@ -197,6 +269,35 @@ def eval (env : Env) : Expr → Except Err PyVal
     | .error e => .error e
     | .ok (.str name) => .ok (.num (env.cb name))
     | .ok _ => .error .keyError
+  | .copyList e =>
+    match eval env e with
+    | .error e => .error e
+    | .ok x => (pyIterList x).map .list
+  | .len e =>
+    match eval env e with
+    | .error e => .error e
+    | .ok x => (pyLen x).map (fun n => .int (Int.ofNat n))
+  | .notIn a b =>
+    match eval env a with
+    | .error e => .error e
+    | .ok x =>
+      match eval env b with
+      | .error e => .error e
+      | .ok y => (pyIn x y).map (fun r => .bool (!r))
+  | .index e k =>
+    match eval env e with
+    | .error e => .error e
+    | .ok x =>
+      match eval env k with
+      | .error e => .error e
+      | .ok y => pyIndex x y
+  | .recCall a b =>
+    match eval env a with
+    | .error e => .error e
+    | .ok x =>
+      match eval env b with
+      | .error e => .error e
+      | .ok y => env.recCall x y
 
 def assignTo (env : Env) (t : Target) (v : PyVal) : Env :=
   match t with
@@ -225,6 +326,12 @@ def exec : Stmt → Env → Except Err (Env × Option PyVal)
     match eval env e with
     | .error e => .error e
     | .ok v => .ok (env, some v)
+  | .popFront x l, env =>
+    match env.locals.lookup l with
+    | some (.list (h :: t)) => .ok ({ env with locals := (x, h) :: (l, .list t) :: env.locals }, none)
+    | some (.list []) => .error .indexError           -- pop from empty list
+    | some _ => .error .attributeError
+    | none => .error .typeError
 
 /-- a returned Python number as a reward value (`weight * None` etc. raise `TypeError`) -/
 def toVal : PyVal → Except Err Val
@@ -246,5 +353,19 @@ def runCalculate (body : Stmt) (env : Env) : Except Err Outcome :=
     match toVal (r.getD .none) with
     | .error e => .error e
     | .ok v => .ok { value := v, reward := env'.reward, rewardInfo := env'.item.rewardInfo }
+
+/-- what a function call yields: the returned value, `None` when execution falls off the end -/
+def fnResult : Except Err (Env × Option PyVal) → Except Err PyVal
+  | .error e => .error e
+  | .ok (_, r) => .ok (r.getD .none)
+
+/-- A two-parameter module-level function `def f(p1, p2): body` whose body may call `f` itself, unfolded at most `fuel`
+times (a call deeper than that answers `TypeError`; `fuel` = number of keys + 1 suffices for `access_from_nested_dict`,
+proved in Props/C10Calc.lean). Falling off the end returns `None`. -/
+def runFunction (body : Stmt) (p1 p2 : String) : Nat → PyVal → PyVal → Except Err PyVal
+  | 0, _, _ => .error .typeError
+  | fuel + 1, a, b =>
+    fnResult (exec body { state := .none, item := { action := "", request := .none, status := "" }, config := [], reward := .none,
+                          locals := [(p1, a), (p2, b)], recCall := runFunction body p1 p2 fuel })
 
 end Primaite.Reward.Py
